@@ -200,8 +200,10 @@ def call_builtin(fr, f, args: list, kwargs: dict, node: ast.AST | None) -> Any:
     if name in ("max", "min"):
         items = fr.iterate(args[0]) if len(args) == 1 else list(args)
         if not items:
+            if "default" in kwargs:
+                return kwargs["default"]
             raise pai.PyExc("ValueError", (f"{name}() arg is an empty sequence",), node)
-        if all(isinstance(x, (int, float)) and not isinstance(x, bool) for x in items):
+        if all(isinstance(x, (int, float, bool)) for x in items):
             return max(items) if name == "max" else min(items)
         if all(pai.is_num_like(x) for x in items):
             # decide pairwise when bounds allow, else opaque with derived bounds
